@@ -290,6 +290,11 @@ func excludedCanon(s interface{}, m *spec.Msg) string {
 			if !ok {
 				continue
 			}
+			if e.Oneof != "" {
+				// an excluded oneof branch lives in a holder that the described branches own:
+				// C07 requires the holder to be reset, so no "untouched" claim is made for it
+				continue
+			}
 			f := cur.FieldByName(e.Go)
 			if f.IsValid() {
 				sb.WriteString(prefix + "." + e.Go + "=")
